@@ -6,5 +6,6 @@ CONSTANTS
   OrderedMerge = TRUE
   ReadsLeak = FALSE
   OrderedScan = FALSE
+  Aliases = FALSE
 INVARIANT Functional
 CHECK_DEADLOCK FALSE
